@@ -16,15 +16,15 @@ import (
 type OutClass int
 
 const (
-	ClsFinal          OutClass = iota // delivered to the client whatever the request is
-	ClsRetrySameOnce                  // read timeout with enough responses but no data
-	ClsRetrySameIdem                  // batch-log write timeout: same host once, if idempotent
-	ClsNextOnce                       // unavailable: next host, once
-	ClsNextAlways                     // bootstrapping: next host
-	ClsNextIdem                       // server error / overloaded / truncate: next host if idempotent
-	ClsConnLoss                       // connection dropped with the request outstanding
-	ClsWriteTimeout                   // other write timeouts: never retried
-	ClsFailure                        // read/write failure: never retried
+	ClsFinal         OutClass = iota // delivered to the client whatever the request is
+	ClsRetrySameOnce                 // read timeout with enough responses but no data
+	ClsRetrySameIdem                 // batch-log write timeout: same host once, if idempotent
+	ClsNextOnce                      // unavailable: next host, once
+	ClsNextAlways                    // bootstrapping: next host
+	ClsNextIdem                      // server error / overloaded / truncate: next host if idempotent
+	ClsConnLoss                      // connection dropped with the request outstanding
+	ClsWriteTimeout                  // other write timeouts: never retried
+	ClsFailure                       // read/write failure: never retried
 )
 
 type OutcomeSpec struct {
